@@ -29,6 +29,8 @@ import (
 
 const prop = "C08"
 
+const sigRemainder = "position-in-alignment-remainder" // see c07: getBottomRange, bucket == divideFactor
+
 func TestMain(m *testing.M) { vstat.Main(m, prop) }
 
 // ---- case (plain data) ---------------------------------------------------------------
@@ -55,7 +57,7 @@ type Case struct {
 	TH     int               `json:"th"`
 	Ids    []setmodel.IDSpec `json:"ids"`
 	Ops    []Op              `json:"ops"`
-	Every  int               `json:"every"`  // compare after every Every-th op (and after the last)
+	Every  int               `json:"every"`  // full comparison after every Every-th op and after the last; Len and Hash() after every op
 	Ranges [][2]uint64       `json:"ranges"` // extra ranges to ask
 }
 
@@ -111,7 +113,8 @@ func sameElements(a, b []ldiff.Element) bool {
 }
 
 type asker struct {
-	req []ldiff.Range
+	req    []ldiff.Range
+	hb, fb []ldiff.RangeResult // result buffers
 }
 
 func newAsker(c Case, uni []uint64) *asker {
@@ -137,13 +140,21 @@ func newAsker(c Case, uni []uint64) *asker {
 	return a
 }
 
-func compare(c Case, a *asker, hist ldiff.Diff, model setmodel.Set, step int) error {
+// compare: full=false checks Len and the whole-set hash only (every step); full=true also
+// Elements and every range answer.
+func compare(c Case, a *asker, hist ldiff.Diff, model setmodel.Set, step int, full bool) error {
 	ctx := context.Background()
 	fresh := setmodel.Fresh(c.DF, c.TH, model)
 	at := fmt.Sprintf("after op %d (df=%d th=%d, %d entries)", step, c.DF, c.TH, len(model))
 	// the index holds exactly the model's entries
 	if hist.Len() != len(model) {
 		return fmt.Errorf("%s: Len() = %d, model holds %d", at, hist.Len(), len(model))
+	}
+	if !full {
+		if hh, fh := hist.Hash(), fresh.Hash(); hh != fh {
+			return fmt.Errorf("%s: Hash() = %s, fresh index holding the same entries %s", at, hh, fh)
+		}
+		return nil
 	}
 	els := hist.Elements()
 	if !sameElements(els, model.Elements()) {
@@ -157,11 +168,11 @@ func compare(c Case, a *asker, hist ldiff.Diff, model setmodel.Set, step int) er
 		return fmt.Errorf("%s: Hash() = %s, fresh index holding the same entries %s", at, hh, fh)
 	}
 	// range answers
-	hr, err := hist.Ranges(ctx, a.req, nil)
+	hr, err := hist.Ranges(ctx, a.req, a.hb[:0])
 	if err != nil {
 		return fmt.Errorf("%s: Ranges error %v", at, err)
 	}
-	fr, err := fresh.Ranges(ctx, a.req, nil)
+	fr, err := fresh.Ranges(ctx, a.req, a.fb[:0])
 	if err != nil {
 		return fmt.Errorf("%s: fresh Ranges error %v", at, err)
 	}
@@ -174,6 +185,7 @@ func compare(c Case, a *asker, hist ldiff.Diff, model setmodel.Set, step int) er
 				at, rq.From, rq.To, rq.Elements, hr[i].Hash, hr[i].Count, hr[i].Elements, fr[i].Hash, fr[i].Count, fr[i].Elements)
 		}
 	}
+	a.hb, a.fb = hr, fr
 	vstat.Count("ranges_compared", int64(len(a.req)))
 	vstat.Count("comparisons", 1)
 	return nil
@@ -203,7 +215,20 @@ func run(c Case) (vstat.Outcome, error) {
 	for i, id := range ids {
 		uni[i] = setmodel.HashOf(id)
 	}
+	// Only if recorded as an unrepaired known finding: positions in the alignment remainder
+	// of a subdivision (nil range in getBottomRange, a crash unrelated to histories).
+	if vstat.KnownSignature(prop, sigRemainder) || vstat.KnownSignature("C07", sigRemainder) {
+		for _, h := range uni {
+			if setmodel.InRemainder(h, c.DF) {
+				out.Excluded, out.Sig = sigRemainder, vstat.HashJSON(c)
+				return out, nil
+			}
+		}
+	}
 	sort.Slice(uni, func(i, j int) bool { return uni[i] < uni[j] })
+	if setmodel.TooClose(uni) {
+		return out, nil // outside the domain (near-collisions of the position hash), see check.json
+	}
 	ask := newAsker(c, uni)
 	every := max(1, c.Every)
 
@@ -225,7 +250,7 @@ func run(c Case) (vstat.Outcome, error) {
 	classes := map[string]bool{}
 	updates, merges := 0, 0
 
-	if err := compare(c, ask, hist, model, 0); err != nil {
+	if err := compare(c, ask, hist, model, 0, false); err != nil {
 		return out, err
 	}
 	for i, op := range c.Ops {
@@ -256,17 +281,33 @@ func run(c Case) (vstat.Outcome, error) {
 				k = opRemoveMiss
 			}
 		}
-		switch k {
-		case opSetNew:
+		applySet := func(id, h string) {
+			if old, ok := model[id]; ok {
+				updates++
+				if old == h {
+					classes["update-same-head"] = true
+				} else {
+					classes["update-other-head"] = true
+				}
+				if _, leaf := depthOn(model, id); leaf == c.TH {
+					classes["update-in-full-leaf"] = true
+				}
+				model[id] = h
+				return
+			}
 			before, _ := depthOn(model, id)
-			model[id] = head(op.H)
-			hist.Set(ldiff.Element{Id: id, Head: model[id]})
+			model[id] = h
 			if after, _ := depthOn(model, id); after > before {
 				classes["split"] = true
 				if after-before >= 2 {
 					classes["multi-level-split"] = true
 				}
 			}
+		}
+		switch k {
+		case opSetNew:
+			applySet(id, head(op.H))
+			hist.Set(ldiff.Element{Id: id, Head: model[id]})
 		case opSetSame, opSetDiff:
 			h := model[id]
 			if k == opSetDiff {
@@ -274,30 +315,24 @@ func run(c Case) (vstat.Outcome, error) {
 				if h == model[id] {
 					h = head(op.H + 1)
 				}
-				classes["update-other-head"] = true
-			} else {
-				classes["update-same-head"] = true
 			}
-			if _, leaf := depthOn(model, id); leaf == c.TH {
-				classes["update-in-full-leaf"] = true
-			}
-			model[id] = h
+			applySet(id, h)
 			hist.Set(ldiff.Element{Id: id, Head: h})
-			updates++
 		case opSetMulti:
 			var els []ldiff.Element
 			for _, m := range op.M {
 				id := ids[((m[0]%len(ids))+len(ids))%len(ids)]
-				if _, ok := model[id]; ok {
-					updates++
+				if _, ok := model[id]; ok && len(op.M) > 1 {
 					classes["multi-with-existing"] = true
 				}
-				model[id] = head(m[1])
+				applySet(id, head(m[1]))
 				els = append(els, ldiff.Element{Id: id, Head: model[id]})
 			}
 			if len(els) > 0 {
 				hist.Set(els...)
-				classes["set-multi"] = true
+				if len(els) > 1 {
+					classes["set-multi"] = true
+				}
 			}
 		case opRemove:
 			before, _ := depthOn(model, id)
@@ -316,10 +351,8 @@ func run(c Case) (vstat.Outcome, error) {
 			_ = hist.RemoveId(id) // outcome not prescribed by C08; the contents must not change
 			classes["remove-absent"] = true
 		}
-		if (i+1)%every == 0 || i == len(c.Ops)-1 {
-			if err := compare(c, ask, hist, model, i+1); err != nil {
-				return out, err
-			}
+		if err := compare(c, ask, hist, model, i+1, (i+1)%every == 0 || i == len(c.Ops)-1); err != nil {
+			return out, err
 		}
 	}
 	// "recognise that they are in sync without exchanging ranges": the head-sync gate over
@@ -399,15 +432,15 @@ func genCase(rt *rapid.T) Case {
 		c.DF = rapid.IntRange(2, 40).Draw(rt, "dfAny")
 		c.TH = rapid.IntRange(1, 40).Draw(rt, "thAny")
 	}
-	c.Ids = genUniverse(rt, c.DF)
+	c.Ids = setmodel.SpacedOut(genUniverse(rt, c.DF))
 	maxOps := 40
 	if rapid.IntRange(0, 9).Draw(rt, "long") == 0 {
 		maxOps = 200
 	}
 	n := rapid.IntRange(1, maxOps).Draw(rt, "nops")
 	c.Every = 1
-	if n > 60 {
-		c.Every = rapid.SampledFrom([]int{1, 8, 1000}).Draw(rt, "every")
+	if n > 12 {
+		c.Every = rapid.SampledFrom([]int{1, 4, 16, 1000}).Draw(rt, "every")
 	}
 	// phases: growth, churn, shrink — so that ranges fill up, split, and empty again
 	for i := 0; i < n; i++ {
@@ -460,7 +493,8 @@ func shardOf() (shard, shards int) {
 	return shard % shards, shards
 }
 
-// enumerate: every history of length <= 4 (quick) / 5 (thorough) over a universe of 3 ids
+// enumerate: every history of length <= 4 (quick; length 4 only for divide factor 2, 16
+// and threshold 1, 2) / <= 5 (thorough) over a universe of 3 ids
 // with the alphabet {Set(id, head a), Set(id, head b), RemoveId(id)} (9 letters), for two
 // universes (three neighbours in the pool; three solved ids 2^12 apart) and every
 // parameter pair; shortest first.
@@ -485,11 +519,14 @@ func enumerate(yield func(Case) bool) {
 						if th == 8 && (df != 2 || ui != 0) {
 							continue // 3 ids never exceed threshold 8: one representative is enough
 						}
+						if l == maxLen && !vstat.Thorough() && !((df == 2 || df == 16) && th <= 2) {
+							continue // quick: the longest histories on a reduced parameter grid
+						}
 						k++
 						if k%shards != shard {
 							continue
 						}
-						c := Case{DF: df, TH: th, Ids: u, Every: 1}
+						c := Case{DF: df, TH: th, Ids: u, Every: 1000} // every prefix is a case of its own
 						for i, x := 0, code; i < l; i, x = i+1, x/9 {
 							c.Ops = append(c.Ops, letter(x%9))
 						}
@@ -517,4 +554,46 @@ func TestRandom(t *testing.T)     { vstat.Check(t, prop, genCase, run) }
 func TestReplay(t *testing.T) {
 	t.Run("TestExhaustive", func(t *testing.T) { vstat.Replay(t, prop, "TestExhaustive", run) })
 	t.Run("TestRandom", func(t *testing.T) { vstat.Replay(t, prop, "TestRandom", run) })
+}
+
+// ---- regressions: minimised failures found by this package on the pinned tree ----------------
+
+var near3 = []setmodel.IDSpec{setmodel.Rank(300000), setmodel.Rank(300001), setmodel.Rank(300002)}
+
+func set(i, h int) Op { return Op{K: opSetMulti, M: [][2]int{{i, h}}} }
+func del(i int) Op    { return Op{K: opRemoveAt, A: i} }
+
+// New(2,1); Set(id0,a); Set(id0,a): the second Set is counted as an insertion, the leaf
+// holding one element "exceeds" threshold 1 and is subdivided; Hash() differs from a fresh
+// index holding {id0:a}.
+func TestRegSetExistingSameHead(t *testing.T) {
+	vstat.One(t, prop, Case{DF: 2, TH: 1, Ids: near3[:1], Every: 1, Ops: []Op{set(0, 0), set(0, 0)}}, run)
+}
+
+// Update with another head in a leaf that is exactly full (threshold 2).
+func TestRegUpdateInFullLeaf(t *testing.T) {
+	vstat.One(t, prop, Case{DF: 16, TH: 2, Ids: near3, Every: 1, Ops: []Op{set(0, 0), set(1, 0), set(0, 1)}}, run)
+}
+
+// One Set call carrying a present and a new id.
+func TestRegSetMultiWithExisting(t *testing.T) {
+	vstat.One(t, prop, Case{DF: 4, TH: 2, Ids: near3, Every: 1, Ops: []Op{set(0, 0), {K: opSetMulti, M: [][2]int{{0, 0}, {1, 0}}}}}, run)
+}
+
+// Two neighbours split ~19 levels deep (df=2, th=1); removing one must merge every level
+// back, the pinned code merges only the lowest one.
+func TestRegMultiLevelMerge(t *testing.T) {
+	vstat.One(t, prop, Case{DF: 2, TH: 1, Ids: near3, Every: 1, Ops: []Op{set(0, 0), set(1, 0), del(0)}}, run)
+	vstat.One(t, prop, Case{DF: 4, TH: 2, Ids: near3, Every: 1, Ops: []Op{set(0, 0), set(1, 0), set(2, 0), del(1)}}, run)
+}
+
+// An id on the last position of the ring, divide factor 3 (2^64 = 3k+1) resp. next to
+// last, divide factor 7 (2^64 = 7k+2): the pinned getBottomRange computes bucket ==
+// divideFactor for it and Set / RemoveId crash on a nil range. With the bucket clamped the
+// history (insert, split next to it, update, remove) must behave like any other.
+func TestRegRingEndHistory(t *testing.T) {
+	far := []setmodel.IDSpec{setmodel.Exact(^uint64(0)-1<<20, 0), setmodel.Exact(^uint64(0)-1<<30, 0)}
+	ops := []Op{set(1, 0), set(0, 0), set(2, 0), set(0, 1), del(1), del(0), set(0, 1), set(1, 1), del(2), del(0)}
+	vstat.One(t, prop, Case{DF: 3, TH: 1, Ids: append([]setmodel.IDSpec{setmodel.Exact(^uint64(0), 0)}, far...), Every: 1, Ops: ops}, run)
+	vstat.One(t, prop, Case{DF: 7, TH: 2, Ids: append([]setmodel.IDSpec{setmodel.Exact(^uint64(0)-1, 0)}, far...), Every: 1, Ops: ops}, run)
 }
